@@ -14,7 +14,7 @@ use neurons::tensor::Tensor;
 pub fn meta(ctx: &Ctx) -> Meta {
     let d = depth(ctx);
     Meta {
-        rule: format!("block layer lists {{[dense],[dense,dense],[conv],[conv,conv],[deconv],[conv,deconv]}} x bias on/off x loops 1..3 (5, 6, 8 for three of the lists) x coupling {{add,subtract,multiply,mean}} x optimizers {{SGD, SGD with learning rate 1e-6, SGDM, Adam, AdamW, RMSprop}} x block first / between other layers x the block's input / output skips on / off (loops <= 3); actions {{learn(A, batch 1), learn(B, 3 samples, batch 2), learn(A+B, batch 5, 2 epochs), learn on a sample whose target is the current prediction (all gradients exactly zero)}}; ALL action sequences of length <= {}. Invariant in every state (initial state included): all unrolled copies of each block layer hold bit-identical weights, biases and kernels (NaN = NaN), and the `parameters:` line of Display counts each shared parameter once. States = histories; transitions = learn() calls; non-trivial = states in which the block's weights differ from their initial values", d),
+        rule: format!("block layer lists {{[dense],[dense,dense],[conv],[conv,conv],[deconv],[conv,deconv]}} x bias on/off x loops 1..3 (5, 6, 8 for three of the lists) x coupling {{add,subtract,multiply,mean}} x optimizers {{SGD, SGD with learning rate 1e-6, SGDM, Adam, AdamW, RMSprop}} x block first / between other layers x the block's input / output skips on / off (loops <= 3); actions {{learn(A, batch 1), learn(B, 3 samples, batch 2), learn(A+B, batch 5, 2 epochs), learn on a sample whose target is the current prediction (all gradients exactly zero)}}; ALL action sequences of length <= {}; dense first-layer blocks also with one weight of 3e38 on an input component that is always zero (the coupled value leaves the f32 range while loss and gradients stay finite). Invariant in every state (initial state included): all unrolled copies of each block layer hold bit-identical weights, biases and kernels (NaN = NaN), and the `parameters:` line of Display counts each shared parameter once. States = histories; transitions = learn() calls; non-trivial = states in which the block's weights differ from their initial values", d),
         bound: format!("history depth {}; complete over the configuration product", d),
         exhaustive: true,
         assumptions: vec!["overwrite coupling is explicitly unimplemented in the library and outside the statement".into()],
@@ -106,6 +106,20 @@ pub fn check(seed: u64, case: &Kv, rep: &mut Report) {
     let shapes = ref_shapes(&net).unwrap();
     let key = net.name();
     let params: Vec<P<f32>> = params_for(&net, &shapes, Valuation::Generic, seed, &key).iter().map(|p| p.map(&|v| v * 0.4)).collect();
+    // "huge": one weight of the block's first layer (the one multiplying input component 0, which is exactly zero in every
+    // sample) is 3e38 in every copy: under additive coupling the coupled value leaves the single-precision range while the
+    // forward pass, the loss and every gradient stay finite - the copies must still end up identical (here: inf)
+    let huge = case.opt("data") == Some("huge");
+    let mut params = params;
+    if huge {
+        if let Some(fbp) = params.iter_mut().find(|p| !p.inner.is_empty()) {
+            for q in fbp.inner.iter_mut() {
+                if let Some(w) = q.w.first_mut().and_then(|w| w.first_mut()) {
+                    *w = 3.0e38;
+                }
+            }
+        }
+    }
     let mut lib = match build_with(&net, &shapes, &params) {
         Ok(l) => l,
         Err(e) => {
@@ -124,7 +138,15 @@ pub fn check(seed: u64, case: &Kv, rep: &mut Report) {
     let n_in = net.input.count();
     let mut r = Rng::new(seed, fnv(&key) ^ 0xAAAA);
     let mk = |r: &mut Rng, n: usize| -> Vec<f32> { (0..n).map(|_| r.signed(0.2, 1.0)).collect() };
-    let data: Vec<(Tensor, Tensor)> = (0..5).map(|_| (tensor(net.input, &mk(&mut r, n_in)), Tensor::single(mk(&mut r, 2)))).collect();
+    let data: Vec<(Tensor, Tensor)> = (0..5)
+        .map(|_| {
+            let mut x = mk(&mut r, n_in);
+            if huge {
+                x[0] = 0.0;
+            }
+            (tensor(net.input, &x), Tensor::single(mk(&mut r, 2)))
+        })
+        .collect();
     // reference parameter count: shared parameters once
     let want_count: usize = net
         .layers
@@ -237,6 +259,18 @@ pub fn cases(ctx: &Ctx) -> Vec<Kv> {
         for o in optimizers() {
             for h in &maximal {
                 out.push(Kv::new().put("net", net.name()).put("opt", o.name()).put("history", h.iter().map(|a| a.to_string()).collect::<Vec<_>>().join(",")));
+            }
+        }
+    }
+    // a coupled value that leaves the single-precision range (dense blocks that are the first layer, no internal skips)
+    for net in configs() {
+        let first_dense_block = matches!(net.layers.first(), Some(L::Fb { layers, inskips: false, outskips: false, .. }) if matches!(layers.first(), Some(L::Dense { .. })));
+        if !first_dense_block {
+            continue;
+        }
+        for o in [optimizers()[0].clone(), optimizers()[3].clone()] {
+            for h in maximal.iter().filter(|h| !h.is_empty()).take(4) {
+                out.push(Kv::new().put("net", net.name()).put("opt", o.name()).put("history", h.iter().map(|a| a.to_string()).collect::<Vec<_>>().join(",")).put("data", "huge"));
             }
         }
     }
